@@ -23,6 +23,11 @@ def sentences(draw, tier):
     cups of adjacent (x, x.r) pairs; plus some random sentences. """
     target = [[draw(st.sampled_from(ATOMS)), 0]
               for _ in range(draw(st.integers(0, 2)))]
+    if draw(st.integers(0, 4)) == 0:
+        # a target that could itself be reduced further (x @ x.r inside)
+        x = [draw(st.sampled_from(ATOMS)), draw(st.integers(-1, 1))]
+        pos = draw(st.integers(0, len(target)))
+        target = target[:pos] + [x, [x[0], x[1] + 1]] + target[pos:]
     wires = [list(w) for w in target]
     if draw(st.integers(0, 4)) > 0:
         for _ in range(draw(st.integers(0, 4))):
